@@ -15,7 +15,7 @@ import os
 import random
 
 from .fold import TOP, mk_int, mk_enum
-from . import peval, reference as ref
+from . import cache, peval, reference as ref
 from .rules_tables import anchor_fn, where_fn
 
 ECL = "ecl::ECL"
@@ -125,9 +125,7 @@ def c07_r3(ctx, f, rid="C07.R3"):
                         "contents are the stated basis and fixed samples, not all 256^n")
     else:
         ctx.subset(rid, "block contents are the stated basis and fixed samples, not all 256^n")
-    mp = multiprocessing.get_context("fork")
-    with mp.Pool(min(16, os.cpu_count() or 1)) as pool:
-        res = pool.map(_job, sorted(jobs, key=lambda j: -j[0] * j[1]), chunksize=1)
+    res = cache.pmap(f, "division-concrete", _job, sorted(jobs, key=lambda j: -j[0] * j[1]))
     n_ok = 0
     und, bad = {}, {}
     for (d, n, v, l, _), out in res:
@@ -230,9 +228,7 @@ def c07_r4(ctx, f, rid="C07.R4"):
     _G["facts"] = f
     pairs = _pairs()
     jobs = [(d, n) + pairs[d][n] for d in sorted(pairs) for n in sorted(pairs[d])]
-    mp = multiprocessing.get_context("fork")
-    with mp.Pool(min(16, os.cpu_count() or 1)) as pool:
-        res = pool.map(_job4, sorted(jobs, key=lambda j: -j[0] * j[1]), chunksize=1)
+    res = cache.pmap(f, "division-forms", _job4, sorted(jobs, key=lambda j: -j[0] * j[1]))
     n_ok = 0
     und, bad = {}, {}
     for (d, n, v, l), out in res:
